@@ -1,16 +1,230 @@
-"""C16: go:embed delivers exactly the files and bytes the go tool would embed (E2 internal/goembed + small E1 leg)."""
-import os, sys
+"""C16: go:embed delivers exactly the files and bytes the go tool would embed; patterns Go rejects are rejected.
+
+Leg A (E2, decides most): inpkg/c16_embed_test.go inside internal/goembed - random package trees x pattern lists,
+      oracle `go list -e -json ./...` (200 packages per call) + gc for directive syntax, vs the real ParsePatterns /
+      LoadDirectives / ResolvePatterns / BuildFSEntries.
+Leg B (E1, small): compiled programs (string, []byte, embed.FS variables; ReadDir/WalkDir/Open/ReadFile dump with a
+      hand-rolled hash, println only) built by llgo from the working tree and by go1.24.0, outputs compared; plus
+      negative programs that go rejects and llgo must reject.  The negatives rejected by `go list` double as the
+      GUARD of leg A: llgo loads packages through go list with embed resolution on, so whatever go list rejects
+      never reaches goembed.  Only if every such negative is rejected by the llgo build does leg A treat
+      "go list rejects, goembed alone would accept" as advisory instead of a violation.
+"""
+import os
+import random
+import sys
+import threading
+import time
+
 sys.path.insert(0, os.path.join(os.path.dirname(os.path.abspath(__file__)), "..", "rig"))
-import core, inpkg
+sys.path.insert(0, os.path.join(os.path.dirname(os.path.abspath(__file__)), "..", "gen"))
+import core
+import inpkg
+import c16_prog
 
 chk = core.Check("C16", level="exploration")
+chk.assumptions = [
+    "reference = go1.24.0: `go list -e -json` (EmbedPatterns/EmbedFiles/Error) for resolution, gc (go build) for //go:embed directive syntax, because go/build silently drops directive lines it cannot parse",
+    "E2 drives LoadDirectives with files parsed by go/parser+ParseComments, as internal/build does through x/tools/go/packages",
+    "packages rejected by go list never reach goembed inside llgo (verified on every run by compiled negative programs); a goembed function that alone would accept them is advisory",
+    "embed.FS laid over BuildFSEntries with unsafe relies on embed.file = {name string; data string; hash [16]byte} (checked by reflection at start)",
+]
+w = chk.work
+QUICK = chk.tier != "thorough"
+DEBUG = os.environ.get("VERIF_C16_DEBUG")
+
 # probe + avoid: constructs covered by OPEN findings are not produced by the random generator (fixed probes keep them covered)
 avoid = sorted(a for f in chk.open_findings() for a in f.get("avoid", []))
 if os.environ.get("VERIF_C16_NOAVOID"):
     avoid = []
+
+llgo = core.build_llgo(w)
+chk.cov["programs"] = 0
+chk.cov["invalid_generated"] = 0
+
+
+def build_pair(name, d):
+    """builds the module in d with llgo and with go; returns {"llgo": (rc, text), "go": (rc, text)}"""
+    r = {}
+    b = w.sub("bin", name)  # never inside the source tree: `//go:embed *` would pick the binaries up
+    rc, so, se = core.llgo_build(w, llgo, d, os.path.join(b, "out-llgo"), timeout=1800)
+    r["llgo"] = (rc, (so + se)[-3000:])
+    rc, so, se = core.go_build(w, d, os.path.join(b, "out-go"))
+    r["go"] = (rc, (so + se)[-3000:])
+    return r
+
+
+def run_pos(a):
+    (name, mod), d = a
+    r = build_pair(name, d)
+    env = w.env()
+    for tag in ("llgo", "go"):
+        if r[tag][0] == 0:
+            r["run-" + tag] = core.run_prog([os.path.join(w.dir, "bin", name, "out-" + tag)], env=env, timeout=300,
+                                            interposer=(tag == "llgo"))
+    return r
+
+
+def tree_listing(d):
+    out = []
+    for root, dirs, files in os.walk(d):
+        dirs.sort()
+        for fn in sorted(files + [x for x in dirs if os.path.islink(os.path.join(root, x))]):
+            p = os.path.join(root, fn)
+            rel = os.path.relpath(p, d)
+            if os.path.islink(p):
+                out.append("%s -> %s" % (rel, os.readlink(p)))
+            else:
+                st = os.lstat(p)
+                out.append("%s mode=%o size=%d" % (rel, st.st_mode, st.st_size))
+    return "\n".join(out) + "\n"
+
+
+def replay_files(d, extra=None):
+    files = {"tree.txt": tree_listing(d)}
+    for root, _, fs in os.walk(d):
+        for fn in fs:
+            if fn.endswith(".go") or fn == "go.mod":
+                p = os.path.join(root, fn)
+                files[os.path.join("src", os.path.relpath(p, d)) + ".txt"] = open(p, errors="replace").read()
+    files.update(extra or {})
+    return files
+
+
+def go_accepts(d):
+    rc, so, se = core.sh(["go", "vet", "./..."], env=w.env(), cwd=d, timeout=600)
+    return rc == 0, (so + se)[-2000:]
+
+
+# ---------------------------------------------------------------- leg B1: negative programs (also the go-list guard)
+negs = c16_prog.negative_programs()
+negdirs = []
+for kind, name, mod, links, fifos in negs:
+    d = w.sub("neg", name)
+    c16_prog.write_tree(d, mod, links, fifos)
+    negdirs.append(d)
+
+# the first successful llgo build of a run compiles the runtime into the run's private cache (~60 s): the fixed positive
+# program starts now, next to the negatives (which fail before any code is generated)
+fixed_mod = c16_prog.fixed_program()
+fixed_dir = w.sub("pos", "fixed")
+c16_prog.write_tree(fixed_dir, fixed_mod)
+ok, txt = go_accepts(fixed_dir)
+if not ok:
+    core.broken("C16: fixed positive program rejected by go:\n" + txt)
+fixed_res = {}
+
+
+def run_fixed():
+    fixed_res["r"] = run_pos((("fixed", fixed_mod), fixed_dir))
+
+
+thf = threading.Thread(target=run_fixed)
+thf.start()
+negres = core.pmap(lambda a: build_pair("neg-" + a[0][1], a[1]), list(zip(negs, negdirs)), workers=8)
+guard_ok = True
+for (kind, name, mod, links, fifos), d, r in zip(negs, negdirs, negres):
+    chk.cov["evaluations"] += 1
+    chk.cov["programs"] += 1
+    chk.sig("neg:" + name)
+    if r["go"][0] == 0:
+        core.broken("C16: negative program %s is accepted by go: generator/oracle error" % name)
+    if r["llgo"][0] == 0:
+        if kind == "golist":
+            guard_ok = False
+        last = (r["go"][1].strip().splitlines() or [""])[-1][:200]
+        chk.violation("neg-" + name, replay_files(d, {"go-build.txt": r["go"][1], "llgo-build.txt": r["llgo"][1]}),
+                      "[e1:llgo-accepts-what-go-rejects:%s] go build fails (%s) but llgo build succeeds" % (name, last))
+    elif kind == "golist":
+        # rejected - by go's own verdict surfacing through llgo's package loading (the guard), or by something else?
+        want = [ln for ln in r["go"][1].splitlines() if ln.strip() and not ln.startswith("#")]
+        key = want[-1].split(": ", 1)[-1] if want else ""
+        if key and key not in r["llgo"][1]:
+            chk.cov.setdefault("neg_rejected_with_other_message", []).append(name)
+chk.cov["go_list_guard_verified"] = guard_ok
+if DEBUG:
+    print("negatives done %.0fs" % (time.time() - chk.t0), flush=True)
+
+# ---------------------------------------------------------------- leg A in the background
 inj = {"internal/goembed/zz_verif_c16_test.go": os.path.join(core.V, "inpkg", "c16_embed_test.go")}
-for rx, label in (("^TestVerifC16Probes$", "probes"), ("^TestVerifC16Trees$", "trees")):
-    rc, out, rep, races, _ = inpkg.run_inpkg(chk, inj, "./internal/goembed", rx, tags="verif", extra_env={"VERIF_C16_AVOID": ",".join(avoid)})
-    if os.environ.get("VERIF_C16_DEBUG"): print(out[-3000:])
+e2 = {}
+
+
+def run_e2():
+    env = {"VERIF_C16_AVOID": ",".join(avoid), "VERIF_C16_GOLIST_GUARD": "1" if guard_ok else "0"}
+    for rx, label in (("^TestVerifC16Probes$", "probes"), ("^TestVerifC16Trees$", "trees")):
+        e2[label] = inpkg.run_inpkg(chk, inj, "./internal/goembed", rx, tags="verif", extra_env=env, timeout=2700)
+        if DEBUG:
+            print("e2 %s done %.0fs" % (label, time.time() - chk.t0), flush=True)
+
+
+th = threading.Thread(target=run_e2)
+th.start()
+
+# ---------------------------------------------------------------- leg B2: positive programs
+progs = []
+nrand = 2 if QUICK else 10
+if os.environ.get("VERIF_C16_PROGS"):
+    nrand = int(os.environ["VERIF_C16_PROGS"])
+for i in range(nrand):
+    # a candidate the reference go tool rejects is a generator miss: re-draw (deterministic sequence)
+    for attempt in range(8):
+        rng = random.Random(chk.seed * 7919 + i * 131 + attempt)
+        mod = c16_prog.random_program(rng)
+        d = w.sub("pos", "cand-%d-%d" % (i, attempt))
+        c16_prog.write_tree(d, mod)
+        ok, txt = go_accepts(d)
+        if ok:
+            progs.append(("rand%d" % i, mod))
+            break
+        chk.cov["invalid_generated"] += 1
+posdirs = []
+for name, mod in progs:
+    d = w.sub("pos", name)
+    c16_prog.write_tree(d, mod)
+    posdirs.append(d)
+
+thf.join()
+posres = [fixed_res["r"]] + core.pmap(run_pos, list(zip(progs, posdirs)), workers=4)
+progs = [("fixed", fixed_mod)] + progs
+posdirs = [fixed_dir] + posdirs
+if DEBUG:
+    print("positives done %.0fs" % (time.time() - chk.t0), flush=True)
+lines = 0
+for (name, mod), d, r in zip(progs, posdirs, posres):
+    chk.cov["programs"] += 1
+    if r["go"][0] != 0:
+        core.broken("C16: positive program %s rejected by go build:\n%s" % (name, r["go"][1]))
+    files = replay_files(d, {"go-build.txt": r["go"][1], "llgo-build.txt": r["llgo"][1]})
+    if r["llgo"][0] != 0:
+        chk.violation("pos-" + name, files, "[e1:llgo-build-fails] go builds the program, llgo does not:\n" + r["llgo"][1][-800:])
+        continue
+    a, b = r["run-llgo"], r["run-go"]
+    if a.kind == "timeout" or b.kind == "timeout":
+        chk.inconclusive += 1
+        continue
+    files.update({"llgo.out": a.out + a.err, "go.out": b.out + b.err})
+    n = len(b.err.splitlines())
+    chk.cov["evaluations"] += n
+    lines += n
+    for ln in b.err.splitlines():
+        f = ln.split()
+        if len(f) >= 2:
+            hidden = "/." in ln or "/_" in ln or (len(f) > 2 and f[2].startswith((".", "_")))
+            chk.sig("e1:" + f[1] + ":" + ("hidden" if hidden else "plain") + ":" + str(min(ln.count("/"), 4)))
+    if (a.kind, a.rc, a.out, a.err) != (b.kind, b.rc, b.out, b.err):
+        fd = core.first_diff(a.err, b.err) or core.first_diff(a.out, b.out)
+        chk.violation("pos-" + name, files, "[e1:output-differs] program %s: llgo (%s rc=%s) vs go (%s rc=%s); first difference %s" % (
+            name, a.kind, a.rc, b.kind, b.rc, fd))
+    elif name == "fixed":
+        chk.sample({"program": "fixed kitchen-sink (E1)", "first_lines": b.err.splitlines()[:6]})
+chk.cov["e1_output_lines_compared"] = lines
+
+th.join()
+for label in ("probes", "trees"):
+    rc, out, rep, races, _ = e2[label]
+    if DEBUG:
+        print(out[-3000:])
     inpkg.absorb(chk, rep, out, rc, label)
-chk.finish(floor_eval=100, floor_distinct=20)
+chk.cov["avoided_constructs"] = avoid
+chk.finish(floor_eval=300 if QUICK else 10000, floor_distinct=100)
